@@ -584,6 +584,9 @@ class Normaliser(ast.NodeTransformer):
             inner = ast.copy_location(ast.For(target=st.target, iter=it.args[0].elt, body=st.body, orelse=[]), st)
             outer = ast.copy_location(ast.For(target=gen.target, iter=gen.iter, body=[inner], orelse=[]), st)
             return self.visit(outer)
+        chain = self._search_chain(st)
+        if chain is not None:
+            return self.visit(chain)
         if _pairs_unrollable(st):
             res = []
             for e in st.iter.elts:
@@ -617,6 +620,33 @@ class Normaliser(ast.NodeTransformer):
                     res.append(c)
             return res
         return self.generic_visit(st)
+
+    def _search_chain(self, st):
+        """for a, b in ((k1, f1), (k2, f2)): if C(a, b): A(a, b); break  else: E    is    if C(k1, f1): A(k1, f1) elif C(k2, f2): A(k2, f2) else: E"""
+        if not (isinstance(st, ast.For) and st.orelse and isinstance(st.target, ast.Tuple) and all(isinstance(t, ast.Name) for t in st.target.elts)):
+            return None
+        it = st.iter
+        if not (isinstance(it, (ast.Tuple, ast.List)) and 1 <= len(it.elts) <= 8
+                and all(isinstance(e, (ast.Tuple, ast.List)) and len(e.elts) == len(st.target.elts) and all(_simple(v) for v in e.elts) for e in it.elts)):
+            return None
+        if not (len(st.body) == 1 and isinstance(st.body[0], ast.If) and not st.body[0].orelse and st.body[0].body
+                and isinstance(st.body[0].body[-1], ast.Break)):
+            return None
+        inner = st.body[0]
+        acts = inner.body[:-1]
+        if any(isinstance(y, (ast.Break, ast.Continue)) for b in acts for y in ast.walk(b)) or any(isinstance(y, ast.Call) for y in ast.walk(inner.test)):
+            return None
+        names = set(t.id for t in st.target.elts)
+        if any(isinstance(y, ast.Name) and y.id in names and isinstance(y.ctx, (ast.Store, ast.Del)) for b in acts for y in ast.walk(b)):
+            return None
+        tail = list(st.orelse)
+        for e in reversed(it.elts):
+            mapping = dict((t.id, v) for t, v in zip(st.target.elts, e.elts))
+            test = _SubstExpr(mapping).visit(copy.deepcopy(inner.test))
+            body = [_SubstExpr(mapping).visit(copy.deepcopy(b)) for b in acts] or [ast.copy_location(ast.Pass(), st)]
+            tail = [ast.copy_location(ast.If(test=test, body=body, orelse=tail), st)]
+        ast.fix_missing_locations(tail[0])
+        return tail[0]
 
     def visit_FunctionDef(self, fn):
         # names bound inside the function hide module level partials; a local bound once to partial(F, ...) is one itself
@@ -1174,6 +1204,38 @@ class _SpecialiseSelectors(ast.NodeTransformer):
                 setattr(node, field, blk)
         return node
 
+    def visit_If(self, st):
+        # `if k in {"a": f, "b": g}: ... {"a": f, "b": g}[k] ...`  is  `if k == "a": ... f ...  elif k == "b": ... g ...` (+ the old else)
+        self.generic_visit(st)
+        t = st.test
+        if not (isinstance(t, ast.Compare) and len(t.ops) == 1 and isinstance(t.ops[0], ast.In) and isinstance(t.left, ast.Name)
+                and isinstance(t.comparators[0], ast.Dict)):
+            return st
+        d = t.comparators[0]
+        if not d.keys or len(d.keys) > 6 or not all(isinstance(k, ast.Constant) and isinstance(k.value, str) for k in d.keys) \
+                or not all(_simple(v) for v in d.values):
+            return st
+        var = t.left.id
+        dtext = ast.dump(d)
+        if any(isinstance(y, ast.Name) and y.id == var and isinstance(y.ctx, (ast.Store, ast.Del)) for b in st.body for y in ast.walk(b)):
+            return st
+
+        def specialise(stmts, key, val):
+            class R(ast.NodeTransformer):
+                def visit_Subscript(self, y):
+                    self.generic_visit(y)
+                    if isinstance(y.value, ast.Dict) and ast.dump(y.value) == dtext and isinstance(y.slice, ast.Name) and y.slice.id == var \
+                            and isinstance(y.ctx, ast.Load):
+                        return ast.copy_location(copy.deepcopy(val), y)
+                    return y
+            return [R().visit(copy.deepcopy(b)) for b in stmts]
+        tail = list(st.orelse)
+        for k, v in reversed(list(zip(d.keys, d.values))):
+            test = ast.Compare(left=ast.Name(id=var, ctx=ast.Load()), ops=[ast.Eq()], comparators=[ast.Constant(value=k.value)])
+            tail = [ast.copy_location(ast.If(test=test, body=specialise(st.body, k, v), orelse=tail), st)]
+        ast.fix_missing_locations(tail[0])
+        return tail[0]
+
     def visit_FunctionDef(self, fn):
         self.generic_visit(fn)
         _split_literal_dicts(fn)
@@ -1216,12 +1278,133 @@ def _split_literal_dicts(fn):
         ast.fix_missing_locations(fn)
 
 
+def _function_table(e):
+    """a display that carries behaviour as data: a tuple / list / dict display (possibly nested one level) whose leaves are names, attributes
+    and constants, at least one of them a name or attribute (a function reference)"""
+    if isinstance(e, ast.Dict):
+        vals = [v for v in e.values] + [k for k in e.keys if k is not None]
+        if any(k is None for k in e.keys):
+            return False
+    elif isinstance(e, (ast.Tuple, ast.List)):
+        vals = list(e.elts)
+    else:
+        return False
+    flat = []
+    for v in vals:
+        if isinstance(v, (ast.Tuple, ast.List)):
+            flat += list(v.elts)
+        else:
+            flat.append(v)
+    return bool(flat) and all(_simple(v) for v in flat) and any(isinstance(v, (ast.Name, ast.Attribute)) for v in flat)
+
+
+class _InlineTableDrivenProcedures(_InlinePrivateGenerators):
+    """`self._fill(target, source, (("sections", self._parse_sections),))` - a private helper that is called for its effect and is handed a table
+    of functions - is replaced by the helper's body with the table put in for the parameter (other parameters bound to renamed locals).
+    Only procedures: no return value, no yield, not recursive, at most 25 statements.  The loops over the table are then literal table loops."""
+    def visit_For(self, st):
+        return ast.NodeTransformer.generic_visit(self, st)
+
+    def visit_Assign(self, st):
+        # `x = self._collect(uri, table)` where the helper ends in its only `return <local>`: the body, then `x = <that local>`
+        self.generic_visit(st)
+        if not (len(st.targets) == 1 and isinstance(st.targets[0], ast.Name) and isinstance(st.value, ast.Call)):
+            return st
+        res = self._inline(st, st.value, result_to=st.targets[0].id)
+        return res if res is not None else st
+
+    def visit_Expr(self, st):
+        self.generic_visit(st)
+        res = self._inline(st, st.value, result_to=None)
+        return res if res is not None else st
+
+    def _inline(self, st, call, result_to):
+        if not isinstance(call, ast.Call) or self.fn is None:
+            return None
+        r = self._inline0(st, call, result_to)
+        return None if r is st else r
+
+    def _inline0(self, st, call, result_to):
+        # a table kept in a local that is bound once (`nested = ((k, f), ...)`) is that table
+        def table_of(a):
+            if isinstance(a, ast.Name):
+                defs = [y for y in ast.walk(self.fn) if isinstance(y, ast.Name) and y.id == a.id and isinstance(y.ctx, (ast.Store, ast.Del))]
+                asg = [y for y in ast.walk(self.fn) if isinstance(y, ast.Assign) and len(y.targets) == 1 and isinstance(y.targets[0], ast.Name)
+                       and y.targets[0].id == a.id]
+                if len(defs) == 1 and len(asg) == 1 and _function_table(asg[0].value) and a.id not in [p.arg for p in self.fn.args.args]:
+                    return asg[0].value
+            return a
+        if any(isinstance(a, ast.Name) for a in call.args):
+            call = ast.copy_location(ast.Call(func=call.func, args=[table_of(a) for a in call.args], keywords=call.keywords), call)
+        if not any(_function_table(a) for a in call.args):
+            return st
+        if any(isinstance(a, ast.Starred) for a in call.args) or call.keywords:
+            return st
+        got = self._callee(call)
+        if got is None:
+            # a class method reached through cls / the class name
+            f = call.func
+            if isinstance(f, ast.Attribute) and isinstance(f.value, ast.Name) and self.cls and f.attr.startswith("_") and not f.attr.startswith("__"):
+                g0 = self.cls_funcs.get(self.cls, {}).get(f.attr)
+                caller_first = self.fn.args.args[0].arg if self.fn.args.args else None
+                if g0 is not None and any(isinstance(d, ast.Name) and d.id == "classmethod" for d in g0.decorator_list) \
+                        and f.value.id in (self.cls, caller_first):
+                    got = (g0, f.value, True)
+        if got is None:
+            return st
+        g, recv, bound = got
+        gbody = list(g.body)
+        ret_name = None
+        if result_to is not None:
+            if not (gbody and isinstance(gbody[-1], ast.Return) and isinstance(gbody[-1].value, ast.Name)):
+                return st
+            ret_name = gbody[-1].value.id
+            gbody = gbody[:-1]
+        if g is self.fn or any(isinstance(y, (ast.Yield, ast.YieldFrom, ast.Return, ast.FunctionDef, ast.Lambda, ast.ClassDef, ast.Global, ast.Nonlocal))
+                               for b in gbody for y in ast.walk(b)):
+            return st
+        if any(isinstance(y, ast.Call) and isinstance(y.func, (ast.Attribute, ast.Name)) and (getattr(y.func, "attr", None) == g.name or getattr(y.func, "id", None) == g.name)
+               for b in gbody for y in ast.walk(b)):
+            return st
+        body = [b for b in gbody if not (isinstance(b, ast.Expr) and isinstance(b.value, ast.Constant))]
+        if len([y for b in body for y in ast.walk(b) if isinstance(y, ast.stmt)]) > 25:
+            return st
+        if g.args.vararg or g.args.kwarg or g.args.kwonlyargs or g.args.posonlyargs or g.args.defaults:
+            return st
+        params = [a.arg for a in g.args.args]
+        pos = params[1:] if bound else params
+        if len(call.args) != len(pos):
+            return st
+        self.counter += 1
+        tag = "_%s%d__" % (g.name.strip("_"), self.counter)
+        mapping = dict((n, tag + n) for n in _function_locals(g))
+        if bound:
+            mapping[params[0]] = recv.id
+        stored = set(y.id for b in body for y in ast.walk(b) if isinstance(y, ast.Name) and isinstance(y.ctx, (ast.Store, ast.Del)))
+        binds, subst = [], {}
+        for p0, a in zip(pos, call.args):
+            if _function_table(a) and p0 not in stored:
+                subst[mapping[p0]] = a
+            else:
+                binds.append(ast.copy_location(ast.Assign(targets=[ast.Name(id=mapping[p0], ctx=ast.Store())], value=a, lineno=st.lineno), st))
+        new_body = [_SubstExpr(subst).visit(_RenameLocals(mapping).visit(copy.deepcopy(b))) for b in body]
+        res = binds + new_body
+        if ret_name is not None:
+            res.append(ast.Assign(targets=[ast.Name(id=result_to, ctx=ast.Store())], value=ast.Name(id=mapping.get(ret_name, ret_name), ctx=ast.Load()),
+                                  lineno=st.lineno))
+        for r in res:
+            ast.copy_location(r, st)
+            ast.fix_missing_locations(r)
+        return res
+
+
 def normalise(tree):
     tree = _lift_closed_local_functions(tree)
     inl = _InlinePrivateConstants(tree)
     if inl.consts:
         tree = inl.visit(tree)
     tree = _InlinePrivateGenerators(tree).visit(tree)
+    tree = _InlineTableDrivenProcedures(tree).visit(tree)
     tree = _SpecialiseSelectors().visit(tree)
     ast.fix_missing_locations(tree)
     tree = Normaliser(tree).visit(tree)
